@@ -393,7 +393,7 @@ impl Context {
 
         let unboxed = self.type_path(this_type, name);
         if needs_box {
-            let box_ = self.box_ident(name);
+            let box_ = self.box_ident(this_type);
             quote!(#box_<#unboxed>)
         } else {
             unboxed
